@@ -780,7 +780,7 @@ COMPONENTS = {
              'reference = pristine fork of the worker and a companion interpreter under another PYTHONHASHSEED'],
 }
 TIERS = {
-    'quick': {'runs': 6000, 'wall_cap': 400},
+    'quick': {'runs': 5500, 'wall_cap': 400},
     'thorough': {'runs': 90000, 'wall_cap': 3600},
 }
 EXPECTED_PROBES = ['second-use-of-stateful-shared-parser', 'RecursionError-raised',
